@@ -22,7 +22,7 @@ class User(ManagementHandler):
 
         :rtype: dict
         """
-        return self.http_client.get(API_USER % username)
+        return self.http_client.get(API_USER % quote(username, ''))
 
     def list(self):
         """List all Users.
@@ -47,7 +47,7 @@ class User(ManagementHandler):
             'password': password,
             'tags': tags
         })
-        return self.http_client.put(API_USER % username,
+        return self.http_client.put(API_USER % quote(username, ''),
                                     payload=user_payload)
 
     def delete(self, username):
@@ -65,7 +65,7 @@ class User(ManagementHandler):
                 API_USERS_BULK_DELETE,
                 payload=json.dumps({'users': username})
             )
-        return self.http_client.delete(API_USER % username)
+        return self.http_client.delete(API_USER % quote(username, ''))
 
     def get_permission(self, username, virtual_host):
         """Get User permissions for the configured virtual host.
@@ -82,7 +82,7 @@ class User(ManagementHandler):
         return self.http_client.get(API_USER_VIRTUAL_HOST_PERMISSIONS %
                                     (
                                         virtual_host,
-                                        username
+                                        quote(username, '')
                                     ))
 
     def get_permissions(self, username):
@@ -97,7 +97,7 @@ class User(ManagementHandler):
         """
         return self.http_client.get(API_USER_PERMISSIONS %
                                     (
-                                        username
+                                        quote(username, '')
                                     ))
 
     def set_permission(self, username, virtual_host, configure_regex='.*',
@@ -127,7 +127,7 @@ class User(ManagementHandler):
         return self.http_client.put(API_USER_VIRTUAL_HOST_PERMISSIONS %
                                     (
                                         virtual_host,
-                                        username
+                                        quote(username, '')
                                     ),
                                     payload=permission_payload)
 
@@ -147,5 +147,5 @@ class User(ManagementHandler):
             API_USER_VIRTUAL_HOST_PERMISSIONS %
             (
                 virtual_host,
-                username
+                quote(username, '')
             ))
